@@ -300,6 +300,12 @@ func H_lifecycle() {
 	verifAssert(verifGoroutines() == 0, "the background goroutine is gone after Close")
 	verifAssert(verifK.initCalls == 1 && verifK.newFiles == 1, "one descriptor acquired")
 	verifCheckClosed(w)
+	for _, p := range [...]string{"", "/t", "rel", "/t/..."} {
+		e := wt.Add(p)
+		verifAssert(e != nil && errors.Is(e, ErrClosed), "Add on a closed Watcher fails with ErrClosed, whatever the path")
+		verifAssert(wt.Remove(p) == nil, "Remove on a closed Watcher returns nil, whatever the path")
+	}
+	verifAssert(wt.WatchList() == nil, "WatchList on a closed Watcher returns nil")
 	verifReach("lifecycle")
 }
 
